@@ -291,7 +291,7 @@ def gen_needles(rng):
     return assemble([a, b], "interpenetrating-needles", True)
 
 
-def gen_spike(rng):
+def gen_spike(rng, spike_first=None):
     """a small tetrahedral spike poking through ONE face of a much larger convex part, away from that face's
     centre: few crossing pairs, faces of very different size"""
     for _ in range(200):
@@ -317,9 +317,13 @@ def gen_spike(rng):
         c = vb.mean(axis=0)
         b = {"kind": "spike", "verts": vb, "faces": orient_star(vb, [(0, 1, 2), (0, 1, 3), (1, 2, 3), (2, 0, 3)], c),
              "inner": c, "convex": True}
-        body = assemble([a, b], "interpenetrating-spike", True)
+        # the pierced part first or the spike first: the edge-through-face test is not symmetric in the pair
+        spike_first = rng.random() < 0.5 if spike_first is None else spike_first
+        body = assemble([b, a] if spike_first else [a, b], "interpenetrating-spike", True)
+        big = 1 if spike_first else 0
+        off = len(b["faces"]) if spike_first else 0
         clear, _ = crossing_pairs(body["verts"], body["faces"])
-        if clear and {x for pr in clear for x in pr if body["owner"][x] == 0} == {i}:
+        if clear and {x for pr in clear for x in pr if body["owner"][x] == big} == {i + off}:
             return body
     raise RuntimeError("no spike configuration found")
 
@@ -623,7 +627,30 @@ SCALES = [1e-3, 1e-2, 0.1, 1.0, 1.0, 1.0, 10.0, 1e2, 1e3]
 OFFSETS = [0, 0, 0, 3.7, -41.3, 1e3]
 
 
+def add_unused_vertices(rng, base):
+    """vertex array with points that no face uses (as TriangularMesh.from_ConvexHull produces for a cloud with
+    interior points): with the renumbering transformation the used vertices get indices up to and beyond the number
+    of faces.  The extra points are convex combinations of used vertices, so the bounding box is unchanged."""
+    V = base["verts"]
+    k = rng.randint(max(1, len(V) - 3), 3 * len(V))
+    extra = []
+    for _ in range(k):
+        w = np.array([rng.random() for _ in range(len(V))])
+        extra.append((w / w.sum()) @ V)
+    out = dict(base)
+    out["verts"] = np.vstack([V, np.array(extra)])
+    out["construction"] = base["construction"] + "+unused-vertices"
+    return out
+
+
 def gen_base(rng, weights=None):
+    b = gen_base0(rng)
+    if rng.random() < 0.3:
+        b = add_unused_vertices(rng, b)
+    return b
+
+
+def gen_base0(rng):
     x = rng.random()
     if x < 0.40:
         return gen_single(rng)
@@ -635,7 +662,7 @@ def gen_base(rng, weights=None):
         return gen_interpenetrating(rng)
     if x < 0.83:
         return gen_needles(rng)
-    if x < 0.88:
+    if x < 0.90:
         return gen_spike(rng)
     b = rng.choice([gen_single, gen_disjoint_union, gen_duplicated])(rng)
     return delete_faces(rng, b)
@@ -643,8 +670,12 @@ def gen_base(rng, weights=None):
 
 def search(ctx, n_bases, n_variants):
     rng = ctx.rng
-    for _ in range(n_bases):
-        base = gen_base(rng)
+    # families that every run must contain at least once, then the random stream
+    forced = [lambda: gen_spike(rng, True), lambda: gen_spike(rng, False), lambda: gen_needles(rng),
+              lambda: add_unused_vertices(rng, gen_single(rng, "convex-hull")),
+              lambda: add_unused_vertices(rng, gen_single(rng, "tetrahedron"))]
+    for bi in range(n_bases):
+        base = forced[bi]() if bi < len(forced) else gen_base(rng)
         scale = rng.choice(SCALES)
         offset = [scale * rng.choice(OFFSETS) * rng.choice([1, -1]) for _ in range(3)]
         nf, nv = len(base["faces"]), len(base["verts"])
@@ -839,7 +870,7 @@ def correspondence(ctx, built):
         ctx.samples.append({"correspondence_case": runs[0]})
     if not built:
         return
-    bad = model_check(ctx, ctx.tier, runs)
+    bad = model_check(ctx, f"{ctx.tier}_s{ctx.seed}", runs)
     if bad is None:
         return
     ctx.count("traces_validated_against_impl", len(runs) - len(bad))
@@ -853,7 +884,7 @@ def correspondence(ctx, built):
                 return False
             try:
                 rr = impl_index_run(faces, script=script)
-                b = model_check(ctx, "shrink", [rr])
+                b = model_check(ctx, f"shrink_s{ctx.seed}", [rr])
             except Exception:   # pylint: disable=broad-except
                 return False
             return bool(b)
@@ -887,7 +918,8 @@ def run(ctx):
     ctx.partial += ["C16_propagation_consistent_partial", "C16_propagation_step_partial"]
     built = ctx.build_props()
     if ctx.tier == "thorough" and built:
-        ctx.coqchk("MV.Props.C16")
+        with Lock():     # a concurrent run of this check rebuilds Props/C16.vo under the same lock
+            ctx.coqchk("MV.Props.C16")
     # the executable model does not depend on any proof: it is (re)built on its own so that the correspondence
     # still runs when a proof broke
     with Lock():
